@@ -1,5 +1,7 @@
 package main
 
+import "fmt"
+
 const assumeA = "hooks (build tag verif) report node state faithfully; oracles see what the executions did, nothing else"
 
 var stdAssumptions = []string{
@@ -337,4 +339,27 @@ func init() {
 		Prefixes:    []string{"exclusive:", "fault:"},
 		Assumptions: stdAssumptions,
 	}
+
+	// engine B: one real node against the wire-level plausible-peer universe
+	addPlan := func(prop string, pe ...planEntry) {
+		sp := properties[prop]
+		sp.Plan = append(sp.Plan, pe...)
+		properties[prop] = sp
+	}
+	uni := planEntry{Engine: "B", Scenario: "universe", Params: "steps=600", Quick: 40, Thorough: 2000}
+	addPlan("C02", uni)
+	addPlan("C04", uni)
+	addPlan("C19", uni)
+	addPlan("C09", planEntry{Engine: "B", Scenario: "universe", Params: "steps=600,seg=1024", Quick: 30, Thorough: 1000})
+	addPlan("C03", planEntry{Engine: "B", Scenario: "universe", Params: "steps=600", Quick: 20, Thorough: 1000})
+	addPlan("C12", planEntry{Engine: "B", Scenario: "universe", Params: "steps=600,seg=1024", Quick: 20, Thorough: 1000})
+	addPlan("C18", planEntry{Engine: "B", Scenario: "framing", Params: "steps=500", Quick: 24, Thorough: 1000})
+	addPlan("C10", planEntry{Engine: "B", Scenario: "crashenum", Params: "steps=110,passes=90", Quick: 5, Thorough: 60, Watchdog: 300e9})
+	for i := 0; i < 8; i++ {
+		addPlan("C05", planEntry{Engine: "B", Scenario: "votegrid", Params: fmt.Sprintf("shard=%d,shards=8", i), Quick: 1, Thorough: 3, Watchdog: 300e9})
+	}
+	sp := properties["C05"]
+	sp.Level = "fault_enumeration"
+	sp.Rule = "engine B vote grid, enumerated completely: voter log (3 shapes) x vote already cast in the term (none / A / B) x leader known (none / A / B) x request term (<, =, >, 2^63+1) x candidate (A / B) x candidate log (older term longer, same term shorter, equal, same term longer, newer term) x transfer flag = 2160 cases (implausible ones are generated but not sent), each followed by a second candidate in the same term, a restart and both candidates again; a seeded sixth of the cases is killed at one of the vote hooks (before persisting, after persisting, before the reply leaves) and reopened; plus " + sp.Rule
+	properties["C05"] = sp
 }
